@@ -54,6 +54,9 @@ def run(chk, replay=None):
         cases.append(('(eq comp %s %s)' % (E.sexp_comp(c0), E.sexp_comp(c2)), '0011', 'mutation comp.addreset'))
         cases.append(('(eq comp %s %s)' % (E.sexp_comp(pAA), E.sexp_comp(pAB)), '0011', 'mutation kid rename with identical sibling'))
         cases.append(('(eq model %s %s)' % (E.sexp_model(m0), E.sexp_model(m1)), '0011', 'mutation model.addunits'))
+    if not replay:
+        # every case also with import sources of equal value shared as one object (must not matter: equality is by value)
+        cases = cases + [(l[:-1] + ' share)', e, d + ' [shared import sources]') for l, e, d in cases if '(imp ' in l]
     lines = [c[0] for c in cases]
     _, impl, e1 = run_lines_parallel(hx, [], lines)
     _, model, e2 = run_lines_parallel(drv, ['equals'], lines)
